@@ -224,19 +224,37 @@ func execLive(in []string) []string {
 	}
 	// REST: the real router. Names containing '/' (or "." / "..") do not survive the URL path:
 	// that is the open finding of C14, not this property.
+	// POP3 first (the REST part ends by deleting the message): USER takes one space-free token
+	popAddr, popName := "-", "-"
+	if !strings.ContainsAny(a, " \t") {
+		popAddr = pop3Count(st, a)
+	}
+	if len(boxes) == 1 && !strings.ContainsAny(boxes[0], " \t") {
+		popName = pop3Count(st, boxes[0])
+	}
 	restObs := "-"
 	if !strings.Contains(a, "/") && a != "." && a != ".." {
 		web.Router = mux.NewRouter()
 		webui.SetupRoutes(web.Router.PathPrefix("/serve/").Subrouter())
 		rest.SetupRoutes(web.Router.PathPrefix("/api/").Subrouter())
 		web.NewServer(conf, mgr, &msghub.Hub{})
-		req := httptest.NewRequest("GET", "http://inbucket.local/api/v1/mailbox/"+url.PathEscape(a), nil)
-		rec := httptest.NewRecorder()
-		web.Router.ServeHTTP(rec, req)
+		do := func(method, path, body string) *httptest.ResponseRecorder {
+			var rd io.Reader
+			if body != "" {
+				rd = strings.NewReader(body)
+			}
+			req := httptest.NewRequest(method, "http://inbucket.local"+path, rd)
+			rec := httptest.NewRecorder()
+			web.Router.ServeHTTP(rec, req)
+			return rec
+		}
+		ea := url.PathEscape(a)
+		rec := do("GET", "/api/v1/mailbox/"+ea, "")
 		restObs = fmt.Sprintf("%d", rec.Code)
 		if rec.Code == http.StatusOK {
 			var items []struct {
 				Mailbox string `json:"mailbox"`
+				ID      string `json:"id"`
 			}
 			if err := json.Unmarshal(rec.Body.Bytes(), &items); err != nil {
 				restObs += ":BADJSON"
@@ -246,16 +264,27 @@ func execLive(in []string) []string {
 					mb = vh.HS(items[0].Mailbox)
 				}
 				restObs += fmt.Sprintf(":%d:%s", len(items), mb)
+				if len(items) == 1 {
+					// every other handler that takes the name from the URL, addressed by the ADDRESS
+					id := url.PathEscape(items[0].ID)
+					var codes []string
+					for _, rq := range [][3]string{
+						{"GET", "/api/v1/mailbox/" + ea + "/" + id, ""},
+						{"GET", "/api/v1/mailbox/" + ea + "/" + id + "/source", ""},
+						{"GET", "/serve/mailbox/" + ea + "/" + id, ""},
+						{"GET", "/serve/mailbox/" + ea + "/" + id + "/source", ""},
+						{"PATCH", "/api/v1/mailbox/" + ea + "/" + id, `{"seen":true}`},
+						{"DELETE", "/api/v1/mailbox/" + ea + "/" + id, ""},
+					} {
+						codes = append(codes, fmt.Sprint(do(rq[0], rq[1], rq[2]).Code))
+					}
+					left := 0
+					st.VisitMailboxes(func(ms []storage.Message) bool { left += len(ms); return true })
+					codes = append(codes, fmt.Sprintf("L%d", left), fmt.Sprint(do("DELETE", "/api/v1/mailbox/"+ea, "").Code))
+					restObs += ":" + strings.Join(codes, ".")
+				}
 			}
 		}
-	}
-	// POP3: USER takes one space-free token
-	popAddr, popName := "-", "-"
-	if !strings.ContainsAny(a, " \t") {
-		popAddr = pop3Count(st, a)
-	}
-	if len(boxes) == 1 && !strings.ContainsAny(boxes[0], " \t") {
-		popName = pop3Count(st, boxes[0])
 	}
 	return []string{ipTable(strs...), rc, dc, stored, byAddr, byName, restObs, popAddr, popName}
 }
